@@ -247,5 +247,6 @@ var verifC19Prop = vkit.NewProp([]string{c19.P}, "c19splunk", verifC19Gen, verif
 func TestVerifC19Splunk(t *testing.T) {
 	verifC19Setup()
 	defer verifC19Teardown()
+	verifC19Prop.CrashFile = true
 	verifC19Prop.Check(t)
 }
